@@ -6,6 +6,7 @@ package main
 import (
 	"bufio"
 	"bytes"
+	"context"
 	"encoding/json"
 	"flag"
 	"fmt"
@@ -17,6 +18,7 @@ import (
 	"sort"
 	"strings"
 	"sync"
+	"sync/atomic"
 	"time"
 
 	"github.com/go-openapi/loads"
@@ -125,6 +127,49 @@ func firstNonEmpty(a, b string) string {
 	return b
 }
 
+// A comparison that does not terminate cannot be stopped (goroutines cannot be killed): it keeps a core and
+// allocates without bound. After a timeout - or when the heap passes guardHeap - no new case is started;
+// the driver writes what it has and exits, which ends the runaway goroutines. The timed-out cases are in
+// the trace (timedOut: true); the cases not started are counted on stderr ("RUNAWAY ...").
+var (
+	runaways  int32
+	abortFlag int32
+	skipped   int32
+)
+
+const guardHeap = 6 << 30
+
+func aborted() bool {
+	if atomic.LoadInt32(&abortFlag) != 0 {
+		atomic.AddInt32(&skipped, 1)
+		return true
+	}
+	return false
+}
+
+func startGuard() {
+	go func() {
+		var ms runtime.MemStats
+		for {
+			time.Sleep(250 * time.Millisecond)
+			runtime.ReadMemStats(&ms)
+			if ms.HeapAlloc > guardHeap || atomic.LoadInt32(&runaways) >= 2 {
+				atomic.StoreInt32(&abortFlag, 1)
+			}
+			if ms.HeapAlloc > 3*guardHeap { // nothing else helps
+				fmt.Fprintln(os.Stderr, "RUNAWAY heap exhausted, leaving")
+				os.Exit(3)
+			}
+		}
+	}()
+}
+
+func reportRunaway() {
+	if n := atomic.LoadInt32(&runaways); n > 0 {
+		fmt.Fprintf(os.Stderr, "RUNAWAY %d comparison(s) did not terminate; %d case(s) not started\n", n, atomic.LoadInt32(&skipped))
+	}
+}
+
 func compareSafe(a, b *spec.Swagger, timeout time.Duration) cmpResult {
 	ch := make(chan cmpResult, 1)
 	go func() {
@@ -156,6 +201,7 @@ func compareSafe(a, b *spec.Swagger, timeout time.Duration) cmpResult {
 	case r := <-ch:
 		return r
 	case <-time.After(timeout):
+		atomic.AddInt32(&runaways, 1)
 		return cmpResult{TimedOut: true}
 	}
 }
@@ -175,11 +221,17 @@ type cliResult struct {
 }
 
 func runCLI(bin string, args ...string) cliResult {
-	cmd := exec.Command(bin, args...)
+	ctx, cancel := context.WithTimeout(context.Background(), 45*time.Second)
+	defer cancel()
+	cmd := exec.CommandContext(ctx, bin, args...)
 	var so, se bytes.Buffer
 	cmd.Stdout, cmd.Stderr = &so, &se
 	err := cmd.Run()
 	res := cliResult{Stdout: so.String(), Stderr: se.String()}
+	if ctx.Err() != nil {
+		// the command did not terminate: reported like a crash (C12: never panics or loops)
+		return cliResult{Exit: 124, Stdout: res.Stdout, Stderr: res.Stderr + "\npanic: (harness) the command did not terminate within 45s and was killed"}
+	}
 	if err != nil {
 		if ee, ok := err.(*exec.ExitError); ok {
 			res.Exit = ee.ExitCode()
@@ -265,6 +317,8 @@ func cmdDiffDrive(args []string) error {
 	if err != nil {
 		return err
 	}
+	startGuard()
+	defer reportRunaway()
 	type result struct{ events []obj }
 	results := make([]result, len(cases))
 	var wg sync.WaitGroup
@@ -275,6 +329,9 @@ func cmdDiffDrive(args []string) error {
 		go func(i int) {
 			defer wg.Done()
 			defer func() { <-sem }()
+			if aborted() {
+				return
+			}
 			results[i].events = driveDiffCase(i, cases[i], *bin, *work, *mode, *seed)
 		}(i)
 	}
@@ -339,11 +396,11 @@ func driveDiffCase(i int, c obj, bin, work, mode string, seed int64) []obj {
 		evs = append(evs, obj{"ev": "LoadError", "id": i, "err": fmt.Sprint(errA, errB)})
 		return evs
 	}
-	ab := compareSafe(sa, sb, 60*time.Second)
+	ab := compareSafe(sa, sb, 20*time.Second)
 	// fresh copies for the other direction: Compare must not depend on earlier runs
 	sa2, _ := loadDoc(pa)
 	sb2, _ := loadDoc(pb)
-	ba := compareSafe(sb2, sa2, 60*time.Second)
+	ba := compareSafe(sb2, sa2, 20*time.Second)
 	an := obj{"ev": "Analyse", "id": i,
 		"ab": entriesForTrace(ab.Entries, false), "ba": entriesForTrace(ba.Entries, false),
 		"nab": len(ab.Entries), "nba": len(ba.Entries),
